@@ -107,6 +107,7 @@ type dynamicWalker struct {
 	walkChan chan *currentPath
 	err      error
 	closeCh  chan struct{}
+	done     bool // the end-of-stats marker was seen
 }
 
 func newDynamicWalker() *dynamicWalker {
@@ -122,7 +123,11 @@ func (w *dynamicWalker) update(p *currentPath) error {
 		return errors.Wrap(w.err, "walker is closed")
 	default:
 	}
+	if w.done {
+		return errors.New("invalid stat after the end of stats")
+	}
 	if p == nil {
+		w.done = true
 		close(w.walkChan)
 		return nil
 	}
